@@ -77,6 +77,26 @@ fn corpus() -> Vec<LinearModel> {
     m.add_constraint(vec![0.0, 1.0], Comparison::LessOrEqual, -0.000001);
     m.set_objective(vec![1.0, 0.0], OptimizationType::Min);
     out.push(m);
+    // a genuine coefficient below the comparison tolerance (4e-6) next to a large value: every row must still be eliminated
+    let mut m = LinearModel::new();
+    for n in ["x0", "x1"] { m.add_variable(n, nn); }
+    m.add_constraint(vec![1.0, 0.0], Comparison::LessOrEqual, 1000000.0);
+    m.add_constraint(vec![0.000004, 1.0], Comparison::LessOrEqual, 10.0);
+    m.add_constraint(vec![1.0, 1.0], Comparison::LessOrEqual, 2000000.0);
+    m.set_objective(vec![-1.0, -1.0], OptimizationType::Min);
+    out.push(m);
+    // Chvatal's cycling example with an unused variable, and with a never-binding row over a costless variable:
+    // the anti-cycling branch must not take a column of zero reduced cost
+    for relax in [false, true] {
+        let mut m = LinearModel::new();
+        for n in ["x0", "x1", "x2", "x3", "x4"] { m.add_variable(n, nn); }
+        m.add_constraint(vec![0.0, 0.5, -5.5, -2.5, 9.0], Comparison::LessOrEqual, 0.0);
+        m.add_constraint(vec![0.0, 0.5, -1.5, -0.5, 1.0], Comparison::LessOrEqual, 0.0);
+        m.add_constraint(vec![0.0, 1.0, 0.0, 0.0, 0.0], Comparison::LessOrEqual, 1.0);
+        if relax { m.add_constraint(vec![-1.0, 0.0, 1.0, 0.0, 0.0], Comparison::LessOrEqual, 5.0); }
+        m.set_objective(vec![0.0, 10.0, -57.0, -9.0, -24.0], OptimizationType::Max);
+        out.push(m);
+    }
     // a genuine equality with right-hand side 0 and only non-positive entries: its artificial variable is still basic
     // after phase one and has to be driven out with a negative pivot
     let mut m = LinearModel::new();
